@@ -1,10 +1,10 @@
 CONSTANTS
-  NameSeq <- N2
+  NameSeq <- N3
   Cidrs <- Fam3
   BlockSpots <- Spots1
   CidrOverlap <- TabOverlap
   CidrCovers <- TabCovers
-  Ties = FALSE
+  Ties = TRUE
 INIT Init
 NEXT INext
 INVARIANTS TypeOK RefinesP Idempotent TrueNeverOverlaps
